@@ -34,8 +34,8 @@ def decode(n):
             raise DecodeError("literal val is not a str: %r" % (n.val,))
         return ("lit", _LIT[cn], n.val)
     if cn == "List":
-        if not isinstance(n.val, list):
-            raise DecodeError("List.val is not a list")
+        if not isinstance(n.val, (list, tuple)):
+            raise DecodeError("List.val is not a sequence")
         return ("list", tuple(decode(x) for x in n.val))
     if cn == "BinOp":
         return ("bin", _BIN[type(n.op).__name__], decode(n.left), decode(n.right))
@@ -49,8 +49,8 @@ def decode(n):
         f = n.func
         if type(f).__name__ != "Identifier":
             raise DecodeError("Call.func is not an Identifier")
-        if not isinstance(n.args, list):
-            raise DecodeError("Call.args is not a list")
+        if not isinstance(n.args, (list, tuple)):
+            raise DecodeError("Call.args is not a sequence")
         return ("call", ".".join(tuple(f.namespace) + (f.name,)),
                 tuple(decode(a) for a in n.args))
     if cn == "NamedParam":
